@@ -133,11 +133,14 @@ def generate(rng):
         # validation only, with large non-contiguous indices: "whatever the sample indices are"
         case = gen_case(rng, rng.choice([50, 1000, 7]), False)
         case["validation_only"] = True
+    if not case.get("validation_only") and rng.random() < 0.12:
+        from .common import sample_constraints
+        case["second"] = sample_constraints(rng, cfg["n"], max_pairs=2)      # the decorated model is decorated once more
     cfg["case"] = case
     cfg["n2"] = cfg["n"] if rng.random() < 0.6 else cfg["n"] + rng.randint(1, 5)
     faults = {"sched": sample_sched(rng, decorated=True), "opt": weighted(rng, [("real", 4), ("identity", 1)])}
     # the decorated object lives through a history: earlier / interrupted / rejected fits, parameter changes, other data
-    ops = [{"op": "decorate"}] + sample_prefix(rng, cfg, p_any=0.5, allow_path=False) + [{"op": "fit", "data": 0}]
+    ops = [{"op": "decorate"}] + sample_prefix(rng, cfg, p_any=0.5, allow_path=True) + [{"op": "fit", "data": 0}]
     if rng.random() < 0.2:
         ops.append({"op": "fit", "data": rng.randrange(2)})
     return {"property": PROPERTY, "scenario": "mlcl", "config": cfg, "ops": ops, "faults": faults}
@@ -206,10 +209,27 @@ def execute(record):
         if accepted and want_accept and not case.get("validation_only"):
             pairs_ml = [tuple(p) for p in ml]
             pairs_cl = [tuple(p) for p in cl]
+            factor = case["factor"]
+            # (i, j, signed factor): + pushes apart (cannot-link), - pulls together (must-link)
+            terms = [(i, j, factor) for (i, j) in pairs_cl] + [(i, j, -factor) for (i, j) in pairs_ml]
+            second = case.get("second")
+            if second:
+                ok2, _ = mlcl_accepts([tuple(p) for p in second["must_link"]], [tuple(p) for p in second["cannot_link"]])
+                if ok2:
+                    try:
+                        with quiet():
+                            add_mlcl_constraint(model, [tuple(p) for p in second["must_link"]] or None,
+                                                [tuple(p) for p in second["cannot_link"]] or None, second["factor"])
+                        terms += [(i, j, second["factor"]) for (i, j) in map(tuple, second["cannot_link"])]
+                        terms += [(i, j, -second["factor"]) for (i, j) in map(tuple, second["must_link"])]
+                        pairs_cl = pairs_cl + [tuple(p) for p in second["cannot_link"]]
+                        pairs_ml = pairs_ml + [tuple(p) for p in second["must_link"]]
+                        res.probe("stacked_decorations")
+                    except ValueError as e:
+                        res.violate("C14:validation:false_reject:second_decoration", {"second": second, "msg": str(e)[:160]})
             h.pairs = pairs_ml + pairs_cl
             h.wrap_batchify()
-            factor = case["factor"]
-            outer_inner = model._compute_grads   # the decorator's intercept_grads
+            outer_inner = model._compute_grads   # the (outermost) decorator's intercept_grads
 
             def outer_cg(Xb, y_pred, gradient):
                 ids = list(h.cur_ids)
@@ -237,18 +257,11 @@ def execute(record):
                 want = np.zeros_like(delta)
                 touched = set()
                 n_in = 0
-                for (i, j) in pairs_cl:
+                for (i, j, f) in terms:
                     if i in ids and j in ids:
                         a, b = ids.index(i), ids.index(j)
-                        want[a] += factor * (P[a] - P[b])
-                        want[b] += factor * (P[b] - P[a])
-                        touched.update((a, b))
-                        n_in += 1
-                for (i, j) in pairs_ml:
-                    if i in ids and j in ids:
-                        a, b = ids.index(i), ids.index(j)
-                        want[a] -= factor * (P[a] - P[b])
-                        want[b] -= factor * (P[b] - P[a])
+                        want[a] += f * (P[a] - P[b])
+                        want[b] += f * (P[b] - P[a])
                         touched.update((a, b))
                         n_in += 1
                 tol = 1e-9 * max(1.0, float(np.abs(G_seen).max()), float(np.abs(want).max()))
